@@ -291,7 +291,7 @@ def _int2bytes(i):
 class IncrementalDecoder(codecs.IncrementalDecoder):
     def __init__(self, errors="strict", encoding=None, force=True):
         self.decoder = None
-        self.encoding = encoding
+        self.encoding = self._givenencoding = encoding
         self.force = force
         codecs.IncrementalDecoder.__init__(self, errors)
         # Store ``errors`` somewhere else,
@@ -351,6 +351,8 @@ class IncrementalDecoder(codecs.IncrementalDecoder):
     def reset(self):
         codecs.IncrementalDecoder.reset(self)
         self.decoder = None
+        # (what was detected in the last document says nothing about the next)
+        self.encoding = self._givenencoding
         self.buffer = b""
         self.headerfixed = False
 
@@ -393,7 +395,7 @@ class IncrementalDecoder(codecs.IncrementalDecoder):
 class IncrementalEncoder(codecs.IncrementalEncoder):
     def __init__(self, errors="strict", encoding=None):
         self.encoder = None
-        self.encoding = encoding
+        self.encoding = self._givenencoding = encoding
         codecs.IncrementalEncoder.__init__(self, errors)
         # Store ``errors`` somewhere else,
         # because we have to hide it in a property
@@ -442,6 +444,8 @@ class IncrementalEncoder(codecs.IncrementalEncoder):
     def reset(self):
         codecs.IncrementalEncoder.reset(self)
         self.encoder = None
+        # (what was detected in the last document says nothing about the next)
+        self.encoding = self._givenencoding
         self.buffer = ""
 
     def _geterrors(self):
